@@ -237,6 +237,11 @@ def body(PROP, plan):
             n_edge, n_walk = len(edges), len(walks)
             # second pass: the real L1 info store behind the driver
             l1 = [dict(b, proc="l1") for b in rng.sample(edges + walks, min(len(edges + walks), p["l1"]))]
+            # ... and with the real bridge store (exit tree included); there a scripted ProcessBlock failure is a real storage
+            # fault inside the block's transaction
+            withfail = [b for b in edges + walks if any(st["a"] == "process" and st.get("fail") for st in b["steps"])]
+            l1 += [dict(b, proc="bridge") for b in rng.sample(withfail, min(len(withfail), p["l1"] // 2))]
+            l1 += [dict(b, proc="bridge") for b in rng.sample(edges + walks, min(len(edges + walks), p["l1"] // 2))]
             # free scheduling: the same chains (moves of the environment and restarts), the node scheduled at random between
             # them whatever calls it makes - no step order of the specification is assumed
             ENV = ("mine", "finalize", "fork", "restart")
@@ -332,7 +337,7 @@ def body(PROP, plan):
                          exhaustive=True) for m in mc_out],
             model_invariants=plan["invariants"],
             faithful_model_of_recorded_findings=probe_out,
-            behaviours=dict(edge_cover_sampled=n_edge, random_walks=n_walk, free_scheduling=sum(1 for b in behs if b.get("free")), with_real_l1_store=sum(1 for b in behs if b["proc"] == "l1"),
+            behaviours=dict(edge_cover_sampled=n_edge, random_walks=n_walk, free_scheduling=sum(1 for b in behs if b.get("free")), with_real_l1_store=sum(1 for b in behs if b["proc"] == "l1"), with_real_bridge_store=sum(1 for b in behs if b["proc"] == "bridge"),
                             **notes),
             replay=dict(wall_s=replay_s, process_calls=nproc, with_events=nontriv, reorg_calls=nreorg, reorgs_deleting_rows=nreorg_rows,
                         restarts=sum(1 for e in evs if e["ev"] == "restart"), rpc_calls=sum(1 for e in evs if e["ev"] == "rpc"),
